@@ -376,10 +376,64 @@ def check(ctx, fx):
             sk[(cls, inst)] = (keep, f)
     want3 = {"has_opaque_path", "HAS_PORT", "has_credentials()", "is_special()", "BUFFER_EMPTY", "host_view.empty()",
              "new_host.empty()", "found_colon", "(type != ada::scheme::FILE)"}
+    VOCAB = {"has_opaque_path", "HAS_PORT", "has_credentials()", "is_special()", "BUFFER_EMPTY", "host_view.empty()",
+             "new_host.empty()", "found_colon", "(type != ada::scheme::FILE)", "succeeded"}
+
+    def refusal_contexts(f):
+        """for every `return false`: the set of (vocabulary condition, polarity) on the chain of single predecessors above
+        it.  Written as `a && b` or as nested ifs, tested once for three refusals or three times, the context of each
+        refusal is the same; a refusal that looks at a different value than its twin has a different context."""
+        import collections
+        blocks = {b_["id"]: b_ for b_ in f["blocks"]}
+        preds = {}
+        for b_ in f["blocks"]:
+            for e in b_["succ"]:
+                if not e.get("pruned"):
+                    preds.setdefault(e["to"], []).append((b_["id"], e.get("when")))
+        inits_ = C.single_inits(f)
+        from lib.loops import dominators
+        dom, _p = dominators(f)
+        out = collections.Counter()
+        for b_ in f["blocks"]:
+            if not any(st["k"] == "return" and st.get("e") is not None and X.show(X.strip(st["e"])) == "false" for st in b_["stmts"]):
+                continue
+            ctxt = set()
+            # every branch one of whose edges dominates this return: `a && (b || c)` contributes a (the b/c join does not)
+            for d in dom.get(b_["id"], ()):
+                db = blocks[d]
+                c = C.term_cond(db)
+                succ = [e for e in db["succ"] if not e.get("pruned") and e.get("when") in ("true", "false")]
+                if c is None or len(succ) != 2 or d == b_["id"]:
+                    continue
+                for e in succ:
+                    tgt = e["to"]
+                    other = [x["to"] for x in succ if x is not e][0]
+                    # the EDGE d -> tgt dominates the return: tgt dominates it and is entered through this edge only
+                    if tgt in dom.get(b_["id"], ()) and other not in dom.get(b_["id"], ()) and len(preds.get(tgt, [])) == 1:
+                        c0 = X.strip(C.resolve_flag(c, inits_))
+                        pol = e["when"] == "true"
+                        while isinstance(c0, dict) and c0.get("k") == "un" and c0.get("op") == "!":
+                            pol = not pol
+                            c0 = X.strip(c0["e"])
+                        t = canon(X.show(c0)) if isinstance(c0, dict) else None
+                        if t is not None and t.startswith("!"):
+                            t, pol = t[1:], not pol
+                        # a test that is known FALSE here only records that an earlier refusal was not taken; whether it is
+                        # visible depends on nesting (`if (e) { if (s) fail; if (c) fail; }` vs `if (e && s) fail; if (e && c)
+                        # fail;`), so only the value being looked at keeps its negative facts
+                        if t in VOCAB and (pol or t in ("host_view.empty()", "new_host.empty()", "BUFFER_EMPTY", "found_colon")):
+                            ctxt.add((t, pol))
+            out[frozenset(ctxt)] += 1
+        return out
+
     for inst in ("<true>", "<false>"):
         a, fa = sk[("ada::url", inst)]
         b, fb = sk[("ada::url_aggregator", inst)]
         same = a == b
+        if not same:
+            # the same refusals may be written with the shared test hoisted (nested ifs) in one copy: compare what each
+            # refusal depends on instead of how often each test is spelled
+            same = refusal_contexts(fa) == refusal_contexts(fb)
         if not same:
             # a local that is merely *called* differently in one copy (the name does not exist in the other copy at all) is
             # not a difference; a test that moved to another variable both copies have is
